@@ -13,13 +13,13 @@ use serde_json::{json, Value};
 
 pub struct C15;
 
-const ALPHA: [char; 7] = ['~', '\\', 'n', '"', 'a', '\n', 'é'];
+const ALPHA: [char; 9] = ['~', '\\', 'n', '"', 'a', '\n', 'é', 't', 'r'];
 
 fn nth_string(mut k: usize, len: usize) -> String {
     let mut s = String::new();
     for _ in 0..len {
-        s.push(ALPHA[k % 7]);
-        k /= 7;
+        s.push(ALPHA[k % 9]);
+        k /= 9;
     }
     s
 }
@@ -222,7 +222,7 @@ impl Property for C15 {
         true
     }
     fn rule(&self) -> String {
-        "cases: (exhaustive, bytecode level) every format string of length <= 5 (thorough: 6) over {~, \\, n, \", a, LF, é} in which escape scanning does not end inside an escape, each with 0-3 integer arguments, built with the independent writer and run in the VM; (exhaustive, source level) the subset the lexer admits, through the real parser and compiler; (random) nested arrays/objects to depth 5 incl. values that reach the same array/object twice (shared, acyclic), empty array/object, parents of every kind, field names whose declaration order differs from byte-wise order, printed through several placeholder positions. oracle: own formatter (escapes, positional ~, mismatch fails without output, result null) and own renderer. non-trivial: a format with >=1 placeholder and >=1 escape, or a count mismatch, or a value of depth >=2 with >=2 fields out of order; distinct by (level, format, args) / source".into()
+        "cases: (exhaustive, bytecode level) every format string of length <= 5 (thorough: 6) over {~, \\, n, \", a, LF, é, t, r} (the statement's seven symbols plus t and r, so that all six escapes occur) in which escape scanning does not end inside an escape, each with 0-3 integer arguments, built with the independent writer and run in the VM; (exhaustive, source level) the subset the lexer admits, through the real parser and compiler; (random) nested arrays/objects to depth 5 incl. values that reach the same array/object twice (shared, acyclic), empty array/object, parents of every kind, field names whose declaration order differs from byte-wise order, printed through several placeholder positions. oracle: own formatter (escapes, positional ~, mismatch fails without output, result null) and own renderer. non-trivial: a format with >=1 placeholder and >=1 escape, or a count mismatch, or a value of depth >=2 with >=2 fields out of order; distinct by (level, format, args) / source".into()
     }
     fn assumptions(&self) -> Vec<String> {
         vec!["a format ending in a lone backslash has no stated meaning and is left out (count reported)".into()]
@@ -232,15 +232,15 @@ impl Property for C15 {
     }
     fn exhaustive_note(&self, tier: Tier) -> Option<String> {
         let l = tier.pick(5, 6);
-        let n: usize = (0..=l).map(|k| 7usize.pow(k as u32)).sum();
-        Some(format!("all {} strings of length <= {} over a 7-symbol alphabet x 0-3 arguments (bytecode level; source level = the lexer-admitted subset); random value part not exhaustive", n, l))
+        let n: usize = (0..=l).map(|k| 9usize.pow(k as u32)).sum();
+        Some(format!("all {} strings of length <= {} over a 9-symbol alphabet x 0-3 arguments (bytecode level; source level = the lexer-admitted subset); random value part not exhaustive", n, l))
     }
     fn fixed_parts(&self, ctx: &mut Ctx) -> Vec<Violation> {
         let mut out = vec![];
         let maxlen = ctx.tier.pick(5, 6);
         let mut k = 0usize;
         for len in 0..=maxlen {
-            for i in 0..7usize.pow(len as u32) {
+            for i in 0..9usize.pow(len as u32) {
                 k += 1;
                 if !ctx.shard_mine(k) {
                     continue;
